@@ -58,6 +58,12 @@ FIXES = {  # subject prefix -> properties whose check must fire when the fix is 
 }
 
 
+# fixes whose lines were changed again by a later fix: (file, text now, text before that fix)
+MANUAL_REVERT = {
+    "fix: read_text without": ("dask/bag/text.py", "                + (parts[-1:] if parts[-1] else [])\n", "                + parts[-1:]\n"),
+}
+
+
 def sh(*cmd, **kw):
     return subprocess.run(cmd, capture_output=True, text=True, **kw)
 
@@ -65,6 +71,9 @@ def sh(*cmd, **kw):
 def main():
     log = sh("git", "-C", "/repo", "log", "--format=%H %s").stdout.splitlines()
     fixes = [(l.split()[0], l.split(" ", 1)[1]) for l in log if l.split(" ", 1)[1].startswith("fix:")]
+    if "--only" in sys.argv:
+        pat = sys.argv[sys.argv.index("--only") + 1]
+        fixes = [f for f in fixes if pat in f[1]]
     wt = "/var/tmp/fixregress_wt"
     sh("git", "-C", "/repo", "worktree", "remove", "--force", wt)
     r = sh("git", "-C", "/repo", "worktree", "add", "--detach", wt, "HEAD")
@@ -83,12 +92,22 @@ def main():
             sh("git", "-C", wt, "checkout", "-q", "--", ".")
             rv = sh("git", "-C", wt, "revert", "-n", sha)
             if rv.returncode:
-                # later fixes touched the same lines: fall back to reverse-applying the patch with 3way
+                # a later fix touched the same lines: re-create the old behaviour by hand
                 sh("git", "-C", wt, "revert", "--abort")
                 sh("git", "-C", wt, "reset", "-q", "--hard", "HEAD")
-                print("REVERT-CONFLICT", sha[:8], subj)
-                bad += 1
-                continue
+                man = next((v for k, v in MANUAL_REVERT.items() if subj.startswith(k)), None)
+                if man is None:
+                    print("REVERT-CONFLICT", sha[:8], subj)
+                    bad += 1
+                    continue
+                rel, old_t, new_t = man
+                path = os.path.join(wt, rel)
+                txt = open(path, encoding="utf-8").read()
+                if txt.count(old_t) != 1:
+                    print("REVERT-CONFLICT (manual revert stale)", sha[:8], subj)
+                    bad += 1
+                    continue
+                open(path, "w", encoding="utf-8").write(txt.replace(old_t, new_t))
             for p in props:
                 c = sh("/verif/bin/sa", "check", p, "--root", wt, env=dict(os.environ, SA_NOWRITE="1"))
                 fired = [l.strip() for l in c.stdout.splitlines() if l.strip().startswith("violated")]
